@@ -79,6 +79,9 @@ Model/SlotKeys.vos Model/SlotKeys.vok Model/SlotKeys.required_vos: Model/SlotKey
 Model/Supervisor.vo Model/Supervisor.glob Model/Supervisor.v.beautified Model/Supervisor.required_vo: Model/Supervisor.v Base/Bytes.vo
 Model/Supervisor.vio: Model/Supervisor.v Base/Bytes.vio
 Model/Supervisor.vos Model/Supervisor.vok Model/Supervisor.required_vos: Model/Supervisor.v Base/Bytes.vos
+Model/Workers.vo Model/Workers.glob Model/Workers.v.beautified Model/Workers.required_vo: Model/Workers.v Base/Bytes.vo Base/Dec.vo Model/RespCodec.vo Model/Filter.vo Model/CmdFilter.vo Model/Slot.vo Model/Incr.vo
+Model/Workers.vio: Model/Workers.v Base/Bytes.vio Base/Dec.vio Model/RespCodec.vio Model/Filter.vio Model/CmdFilter.vio Model/Slot.vio Model/Incr.vio
+Model/Workers.vos Model/Workers.vok Model/Workers.required_vos: Model/Workers.v Base/Bytes.vos Base/Dec.vos Model/RespCodec.vos Model/Filter.vos Model/CmdFilter.vos Model/Slot.vos Model/Incr.vos
 Proofs/BacklogProofs.vo Proofs/BacklogProofs.glob Proofs/BacklogProofs.v.beautified Proofs/BacklogProofs.required_vo: Proofs/BacklogProofs.v Base/Bytes.vo Base/Table.vo Model/Backlog.vo
 Proofs/BacklogProofs.vio: Proofs/BacklogProofs.v Base/Bytes.vio Base/Table.vio Model/Backlog.vio
 Proofs/BacklogProofs.vos Proofs/BacklogProofs.vok Proofs/BacklogProofs.required_vos: Proofs/BacklogProofs.v Base/Bytes.vos Base/Table.vos Model/Backlog.vos
@@ -127,6 +130,9 @@ Proofs/SlotWitnessCheck.vos Proofs/SlotWitnessCheck.vok Proofs/SlotWitnessCheck.
 Proofs/SupervisorProofs.vo Proofs/SupervisorProofs.glob Proofs/SupervisorProofs.v.beautified Proofs/SupervisorProofs.required_vo: Proofs/SupervisorProofs.v Base/Bytes.vo Model/Supervisor.vo
 Proofs/SupervisorProofs.vio: Proofs/SupervisorProofs.v Base/Bytes.vio Model/Supervisor.vio
 Proofs/SupervisorProofs.vos Proofs/SupervisorProofs.vok Proofs/SupervisorProofs.required_vos: Proofs/SupervisorProofs.v Base/Bytes.vos Model/Supervisor.vos
+Proofs/WorkersProofs.vo Proofs/WorkersProofs.glob Proofs/WorkersProofs.v.beautified Proofs/WorkersProofs.required_vo: Proofs/WorkersProofs.v Base/Bytes.vo Base/Dec.vo Model/RespCodec.vo Model/Filter.vo Model/CmdFilter.vo Model/Slot.vo Model/Incr.vo Model/Workers.vo Gen/Crc16.vo Gen/CmdTable.vo Proofs/CmdFilterProofs.vo
+Proofs/WorkersProofs.vio: Proofs/WorkersProofs.v Base/Bytes.vio Base/Dec.vio Model/RespCodec.vio Model/Filter.vio Model/CmdFilter.vio Model/Slot.vio Model/Incr.vio Model/Workers.vio Gen/Crc16.vio Gen/CmdTable.vio Proofs/CmdFilterProofs.vio
+Proofs/WorkersProofs.vos Proofs/WorkersProofs.vok Proofs/WorkersProofs.required_vos: Proofs/WorkersProofs.v Base/Bytes.vos Base/Dec.vos Model/RespCodec.vos Model/Filter.vos Model/CmdFilter.vos Model/Slot.vos Model/Incr.vos Model/Workers.vos Gen/Crc16.vos Gen/CmdTable.vos Proofs/CmdFilterProofs.vos
 Props/C01.vo Props/C01.glob Props/C01.v.beautified Props/C01.required_vo: Props/C01.v Base/Bytes.vo Base/Endian.vo Spec/Crc64.vo Gen/Crc64.vo Gen/Rdb.vo Model/Digest.vo Model/Rdb.vo Spec/RdbFormat.vo Spec/RdbRecords.vo Proofs/RdbProofs.vo Proofs/DigestProofs.vo
 Props/C01.vio: Props/C01.v Base/Bytes.vio Base/Endian.vio Spec/Crc64.vio Gen/Crc64.vio Gen/Rdb.vio Model/Digest.vio Model/Rdb.vio Spec/RdbFormat.vio Spec/RdbRecords.vio Proofs/RdbProofs.vio Proofs/DigestProofs.vio
 Props/C01.vos Props/C01.vok Props/C01.required_vos: Props/C01.v Base/Bytes.vos Base/Endian.vos Spec/Crc64.vos Gen/Crc64.vos Gen/Rdb.vos Model/Digest.vos Model/Rdb.vos Spec/RdbFormat.vos Spec/RdbRecords.vos Proofs/RdbProofs.vos Proofs/DigestProofs.vos
@@ -142,6 +148,12 @@ Props/C04.vos Props/C04.vok Props/C04.required_vos: Props/C04.v Base/Bytes.vos B
 Props/C05.vo Props/C05.glob Props/C05.v.beautified Props/C05.required_vo: Props/C05.v Base/Bytes.vo Base/Dec.vo Model/RespCodec.vo Model/Filter.vo Model/Handoff.vo Proofs/HandoffProofs.vo
 Props/C05.vio: Props/C05.v Base/Bytes.vio Base/Dec.vio Model/RespCodec.vio Model/Filter.vio Model/Handoff.vio Proofs/HandoffProofs.vio
 Props/C05.vos Props/C05.vok Props/C05.required_vos: Props/C05.v Base/Bytes.vos Base/Dec.vos Model/RespCodec.vos Model/Filter.vos Model/Handoff.vos Proofs/HandoffProofs.vos
+Props/C06.vo Props/C06.glob Props/C06.v.beautified Props/C06.required_vo: Props/C06.v Base/Bytes.vo Base/Dec.vo Model/Filter.vo Model/CmdFilter.vo Model/Incr.vo Model/Workers.vo Gen/Crc16.vo Proofs/WorkersProofs.vo
+Props/C06.vio: Props/C06.v Base/Bytes.vio Base/Dec.vio Model/Filter.vio Model/CmdFilter.vio Model/Incr.vio Model/Workers.vio Gen/Crc16.vio Proofs/WorkersProofs.vio
+Props/C06.vos Props/C06.vok Props/C06.required_vos: Props/C06.v Base/Bytes.vos Base/Dec.vos Model/Filter.vos Model/CmdFilter.vos Model/Incr.vos Model/Workers.vos Gen/Crc16.vos Proofs/WorkersProofs.vos
+Props/C07.vo Props/C07.glob Props/C07.v.beautified Props/C07.required_vo: Props/C07.v Base/Bytes.vo Model/Filter.vo Model/Workers.vo Proofs/WorkersProofs.vo
+Props/C07.vio: Props/C07.v Base/Bytes.vio Model/Filter.vio Model/Workers.vio Proofs/WorkersProofs.vio
+Props/C07.vos Props/C07.vok Props/C07.required_vos: Props/C07.v Base/Bytes.vos Model/Filter.vos Model/Workers.vos Proofs/WorkersProofs.vos
 Props/C08.vo Props/C08.glob Props/C08.v.beautified Props/C08.required_vo: Props/C08.v Base/Bytes.vo Model/Offsets.vo Proofs/HandoffProofs.vo
 Props/C08.vio: Props/C08.v Base/Bytes.vio Model/Offsets.vio Proofs/HandoffProofs.vio
 Props/C08.vos Props/C08.vok Props/C08.required_vos: Props/C08.v Base/Bytes.vos Model/Offsets.vos Proofs/HandoffProofs.vos
